@@ -46,6 +46,7 @@ class TagEncoder(object):
 def prepare(tier):  # pylint: disable=unused-argument
     c13.prepare(tier)
     set_field_sites()
+    shared_field_groups()
     return {'phase': 'history'}
 
 
@@ -217,6 +218,34 @@ def set_field_sites():
     return _SET_SITES
 
 
+_FIELD_GROUPS = None
+
+
+def shared_field_groups():
+    """Lists of corpus class paths whose (attrs or _asdict) field names overlap: [[path, path, ...], ...]."""
+    global _FIELD_GROUPS  # pylint: disable=global-statement
+    if _FIELD_GROUPS is None:
+        by_name = {}
+        for path in corpus.class_paths():
+            seeds = corpus.objects(path)
+            if not seeds:
+                continue
+            obj = seeds[0][1]
+            names = set()
+            if attr.has(type(obj)):
+                names.update(f.name for f in attr.fields(type(obj)) if not f.name.startswith('_'))
+            try:
+                as_dict = obj._asdict() if hasattr(obj, '_asdict') else None  # pylint: disable=protected-access
+                if isinstance(as_dict, dict):
+                    names.update(k for k in as_dict if isinstance(k, str))
+            except Exception:  # pylint: disable=broad-except
+                pass
+            for name in names:
+                by_name.setdefault(name, []).append(path)
+        _FIELD_GROUPS = [sorted(set(paths)) for name, paths in sorted(by_name.items()) if len(set(paths)) >= 2]
+    return _FIELD_GROUPS
+
+
 def _members_for(path, field, value):
     """All members of the enum the set holds (so that colliding members can be chosen)."""
     import enum
@@ -240,6 +269,16 @@ def generate(rng, index, tier, extra):  # pylint: disable=unused-argument
         path, field = rng.choice(sites)
         return {'kind': 'setorder', 'cls': path, 'seed': rng.randrange(16), 'field': field,
                 'count': rng.choice((2, 3, 4, 6)), 'perm': rng.getrandbits(32), 'pick': rng.getrandbits(32)}
+    if roll < 0.4:
+        subjects = [_spec_choices(rng) for _ in range(rng.choice((1, 2, 3)))]
+        groups = shared_field_groups()
+        if groups and rng.random() < 0.6:
+            # two classes that share a field name: residual per-name state would show between them
+            first, second = rng.sample(groups[rng.randrange(len(groups))], 2)
+            subjects = [['corpus', first, rng.randrange(64)], ['corpus', second, rng.randrange(64)]] + subjects[:1]
+            rng.shuffle(subjects)
+        passes = rng.choice((['default'], ['tag'], ['default', 'tag'], ['tag', 'default'], ['default', 'tag', 'default']))
+        return {'kind': 'enchistory', 'subjects': subjects, 'passes': passes}
     subjects = [_spec_choices(rng) for _ in range(rng.choice((2, 3, 4, 6, 8)))]
     order2 = list(range(len(subjects)))
     rng.shuffle(order2)
@@ -250,7 +289,9 @@ def generate(rng, index, tier, extra):  # pylint: disable=unused-argument
 # ---------------------------------------------------------------- execution
 
 def needs_isolation(doc):
-    return doc['kind'] == 'history'     # installs a class-level encoder; default-constructed subjects
+    # everything that renders runs in a forked child: rendering may leave class-level state behind, which must
+    # not leak from one run into the next ('enchistory' forks its own children, 'hashseed' spawns interpreters)
+    return doc['kind'] in ('history', 'setorder')
 
 
 def execute(doc):
@@ -262,6 +303,8 @@ def execute(doc):
         _exec_setorder(doc, res)
     elif kind == 'hashseed':
         _exec_hashseed(doc, res)
+    elif kind == 'enchistory':
+        _exec_enchistory(doc, res)
     else:
         raise core.HarnessError('unknown schedule kind %r' % kind)
     return res
@@ -311,6 +354,34 @@ def _exec_history(doc, res):  # pylint: disable=too-many-branches,too-many-state
                     res.violation((PROPERTY, 'equal-objects-differ', name, which),
                                   'an object and its parse-compose round trip produce identical output',
                                   _diff_text(out, twin_out))
+        # an edited object and an equal object built afresh through the constructor
+        for idx in sorted(first):
+            name, _, obj = first[idx]
+            if _volatile(specs[idx]):
+                continue
+            try:
+                import copy
+                obj = copy.deepcopy(obj)     # never edit an object that a later pass may build again from a pool
+            except Exception:  # pylint: disable=broad-except
+                continue
+            edited = _edit_public_field(obj, skip=idx % 3)
+            if not edited:
+                continue
+            try:
+                fresh = attr.evolve(obj)
+            except Exception:  # the edited value is not accepted by the constructor  # pylint: disable=broad-except
+                continue
+            if canon(fresh) != canon(obj):
+                continue
+            res.stats['probe.edited_object_vs_fresh_equal_object'] += 1
+            out_edited, out_fresh = serialise(obj), serialise(fresh)
+            res.event('edited', idx, name, edited, _digest(out_fresh))
+            if out_edited != out_fresh:
+                which = 'json' if out_edited.get('json') != out_fresh.get('json') else 'markdown'
+                res.violation((PROPERTY, 'equal-objects-differ', name, 'edited-' + which),
+                              'equal objects produce identical output',
+                              'after assigning %s: edited object vs an equal object built by the constructor: %s' % (
+                                  edited, _diff_text(out_fresh, out_edited)))
         # second pass: fresh copies, another order
         for idx in doc['order2']:
             if idx not in first:
@@ -335,6 +406,94 @@ def _exec_history(doc, res):  # pylint: disable=too-many-branches,too-many-state
     res.sched_sig = ('history', tuple(names)[:8], doc['encoder'], reordered)
     res.nontrivial = reordered or doc['encoder'] != 'default'
     res.stats['runs.history.' + doc['encoder']] += 1
+
+
+def _edit_public_field(obj, skip=0):
+    """Assign another valid value to one public attrs field (what a caller editing a parsed message does).
+    Returns the field name or None."""
+    import enum
+    if not attr.has(type(obj)):
+        return None
+    candidates = []
+    for field in attr.fields(type(obj)):
+        if field.name.startswith('_') or not field.init:
+            continue
+        value = getattr(obj, field.name, None)
+        if isinstance(value, (set, frozenset)) and value is not None:
+            members = None
+            for item in value:
+                if isinstance(item, enum.Enum):
+                    members = list(type(item))
+                    break
+            if members:
+                missing = [m for m in members if m not in value]
+                new = set(value)
+                if missing:
+                    new.add(missing[0])
+                else:
+                    new.discard(members[0])
+                candidates.append((field.name, new))
+            continue
+        other = c13._other_value(value)  # pylint: disable=protected-access
+        if other is not None:
+            candidates.append((field.name, other[0]))
+    for name, new in candidates[skip:]:
+        try:
+            setattr(obj, name, new)
+            return name
+        except Exception:  # pylint: disable=broad-except
+            continue
+    return None
+
+
+def _render_sequence(specs, passes):
+    """Runs in a forked child: serialise all subjects once per pass under that pass's encoder; returns the
+    outputs of the last pass {index: out}."""
+    from cryptoparser.common.base import Serializable
+    original = Serializable.__dict__['post_text_encoder']
+    outs = {}
+    for number, encoder in enumerate(passes):
+        Serializable.post_text_encoder = TagEncoder() if encoder == 'tag' else original
+        for idx, spec in enumerate(specs):
+            obj = _build(spec)
+            if obj is None:
+                continue
+            out = serialise(obj)
+            if number == len(passes) - 1:
+                outs[idx] = (type(obj).__name__, out)
+    return outs
+
+
+def _exec_enchistory(doc, res):
+    """The same subjects rendered under encoder E in a fresh process image, and rendered under E after earlier
+    passes under other encoders: what was serialised before (and under which encoder) must not matter."""
+    specs = doc['subjects']
+    passes = doc['passes']
+    # control: every subject rendered alone, each in its own pristine process image
+    control = {}
+    for idx, spec in enumerate(specs):
+        alone = core.call_isolated(_render_sequence, [spec], passes[-1:])
+        if 0 in alone:
+            control[idx] = alone[0]
+    later = core.call_isolated(_render_sequence, specs, passes)
+    res.stats['fault.encoder_switched_between_passes'] += len(passes) - 1
+    names = []
+    for idx in sorted(control):
+        name, out = control[idx]
+        names.append(name)
+        res.event('enchistory', idx, name, None if _volatile(specs[idx]) else _digest(out))
+        res.stats['serialisations'] += len(passes) + 1
+        _wellformed(res, name, out)
+        if _volatile(specs[idx]) or idx not in later:
+            continue
+        if later[idx][1] != out:
+            which = 'json' if later[idx][1].get('json') != out.get('json') else 'markdown'
+            res.violation((PROPERTY, 'depends-on-earlier-serialisation', name, which),
+                          'output is independent of which objects were serialised before (and under which encoder)',
+                          'passes %s: %s' % (passes, _diff_text(out, later[idx][1])))
+    res.sched_sig = ('enchistory', tuple(names)[:6], tuple(passes))
+    res.nontrivial = True
+    res.stats['runs.enchistory'] += 1
 
 
 def _volatile(spec):
@@ -536,7 +695,7 @@ def hash_phase(tier, seed):
                 raise core.HarnessError('hash tables differ for %r but the single-subject replay agrees' % (spec, ))
     batch.samples.append({'index': 0, 'schedule': {'kind': 'hashseed', 'subject': subjects[0], 'seeds': list(seeds)},
                           'signature': 'hashseed'})
-    batch.digests.append(hashlib.sha256(json.dumps(reference, sort_keys=True).encode()).hexdigest())
+    batch.digests.append(int(hashlib.sha256(json.dumps(reference, sort_keys=True).encode()).hexdigest(), 16))
     batch.wall = time.time() - began
     return batch
 
@@ -569,8 +728,8 @@ def check(tier, seed):
     batch = core.merge_batches([hashed, explore])
     coverage = core.coverage_from_batch(
         batch, RULE,
-        fault_kinds=('fresh_interpreter_other_hash_seed', 'insertion_order_permuted'),
-        probes=('round_trip_twin_serialised', ),
+        fault_kinds=('fresh_interpreter_other_hash_seed', 'insertion_order_permuted', 'encoder_switched_between_passes'),
+        probes=('round_trip_twin_serialised', 'edited_object_vs_fresh_equal_object'),
         components={
             'real': ['as_json / as_markdown / json.dumps of every corpus class, factory-built and default-constructed objects',
                      'the monkey-patched json.JSONEncoder.default', 'compose / parse for round-trip twins'],
